@@ -75,6 +75,61 @@ class Ctx:
                 self.assumptions.append(t)
 
 
+_PAR = {}
+
+
+def _par_worker(i):
+    func, items, base = _PAR["job"]
+    sub = Ctx(base.prop, base.tier, base.root, base.seed, 1)
+    sub._program = base._program
+    try:
+        func(sub, items[i])
+    except AnalysisError as e:
+        return ("aerr", str(e))
+    except Exception as e:     # pragma: no cover
+        import traceback
+        return ("err", f"{type(e).__name__}: {e}\n{traceback.format_exc()[-1500:]}")
+    fs = [(f.prop, f.rule, f.where, f.construct, f.message, f.loc, None if f.detail is None else str(f.detail)[:800])
+          for f in sub.findings]
+    return ("ok", sub.obligations, fs, sub.samples, sorted(sub.analysed), sub.instances, sub.notes, sub.assumptions)
+
+
+def parallel(ctx, func, items, jobs=None):
+    """Run func(sub_ctx, item) for every item in forked worker processes and merge obligations, findings and
+    evidence into ctx (results are plain data; each worker re-derives everything from the parsed source)."""
+    import multiprocessing as mp
+    items = list(items)
+    if not items:
+        return
+    jobs = max(1, min(jobs or ctx.jobs or 1, len(items)))
+    _ = ctx.program          # parse once, before forking
+    if jobs == 1:
+        results = []
+        _PAR["job"] = (func, items, ctx)
+        results = [_par_worker(i) for i in range(len(items))]
+    else:
+        _PAR["job"] = (func, items, ctx)
+        with mp.get_context("fork").Pool(jobs) as pool:
+            results = pool.map(_par_worker, range(len(items)), chunksize=1)
+    for r in results:
+        if r[0] == "aerr":
+            raise AnalysisError(r[1])
+        if r[0] == "err":
+            raise AnalysisError("worker failed: " + r[1])
+        _, obs, fs, samples, analysed, instances, notes, assumptions = r
+        ctx.obligations.extend(obs)
+        for f in fs:
+            ctx.findings.append(Finding(*f))
+        for s_ in samples:
+            if len(ctx.samples) < 20:
+                ctx.samples.append(s_)
+        ctx.analysed.update(analysed)
+        for k, v in instances.items():
+            ctx.instances[k] = ctx.instances.get(k, 0) + v
+        ctx.notes.update(notes)
+        ctx.assume(*assumptions)
+
+
 def load_known(path=None):
     path = path or os.path.join(VERIF, "known_findings.json")
     if not os.path.exists(path):
